@@ -337,9 +337,37 @@ pub fn check_request(tape: &[u16], rc: &mut RCase) -> Result<(), Failure> {
     let mut env = serde_json::Map::new();
     let mut expected: BTreeMap<String, ArgValue> = BTreeMap::new();
     let mut split = false;
+    // a key supplied under both maps: either supplied value may be handed over (the statement does not
+    // rank the maps), but nothing else
+    let mut alt: BTreeMap<String, ArgValue> = BTreeMap::new();
+    // an ill-formed value under the explicit argument map is refused, whatever the environment map holds
+    let mut ill_formed_arg: Option<String> = None;
     for (name, ty) in &declared {
         let (j, v) = json_for(ty, &mut t);
-        match t.weighted(&[5, 3, 1]) {
+        match t.weighted(&[5, 3, 1, 2, 1]) {
+            3 => {
+                let (j2, v2) = json_for(ty, &mut t);
+                env.insert(name.clone(), j);
+                alt.insert(name.clone(), v);
+                args.insert(name.clone(), j2);
+                expected.insert(name.clone(), v2);
+                split = true;
+            }
+            4 => {
+                let bad = match ty {
+                    Type::Int => json!("seven"),
+                    Type::Bool => json!("maybe"),
+                    Type::Bytes => json!("zz"),
+                    Type::Address => json!("not-an-address"),
+                    Type::UtxoRef => json!("nohash"),
+                    _ => json!({"x": 1}),
+                };
+                if t.flag() {
+                    env.insert(name.clone(), j);
+                }
+                args.insert(name.clone(), bad);
+                ill_formed_arg = Some(name.clone());
+            }
             0 => {
                 args.insert(name.clone(), j);
                 expected.insert(name.clone(), v);
@@ -431,6 +459,11 @@ pub fn check_request(tape: &[u16], rc: &mut RCase) -> Result<(), Failure> {
             Err(Failure::new(sig, format!("{} ({}:{})", p.message, p.file, p.line), rendered()))
         }
         Ok(Err(e)) => {
+            if ill_formed_arg.is_some() {
+                rc.label("request:ill_formed_argument_refused");
+                rc.record(key, true, rendered);
+                return Ok(());
+            }
             if corrupted.is_none() || corrupted == Some("valid_base64") {
                 return Err(Failure::new("well_formed_request_rejected", e, rendered()));
             }
@@ -446,7 +479,15 @@ pub fn check_request(tape: &[u16], rc: &mut RCase) -> Result<(), Failure> {
                 rc.record(key, true, rendered);
                 return Ok(());
             }
-            let same = got.len() == expected.len() && got.iter().all(|(k, v)| expected.get(k).map(|w| arg_eq(v, w)).unwrap_or(false));
+            if let Some(name) = &ill_formed_arg {
+                return Err(Failure::new(
+                    "args:ill_formed_argument_accepted",
+                    format!("argument `{}` is not a value of its declared type, the request was accepted: {:?}", name, got.get(name)),
+                    rendered(),
+                ));
+            }
+            let same = got.len() == expected.len()
+                && got.iter().all(|(k, v)| expected.get(k).map(|w| arg_eq(v, w)).unwrap_or(false) || alt.get(k).map(|w| arg_eq(v, w)).unwrap_or(false));
             if !same {
                 let env_only_missing = expected.iter().all(|(k, w)| match got.get(k) {
                     Some(v) => arg_eq(v, w),
